@@ -6,6 +6,7 @@ package raft
 // helpers that read what is durable on a node's disk without opening it.
 
 import (
+	"time"
 	"encoding/binary"
 	"fmt"
 	"io/ioutil"
@@ -164,6 +165,22 @@ func (c *cluster) onWireMsg(m *streamMon, w *wireMsg) {
 				}
 			}
 		}
+		// C17 stability, by the clock instead of the follower's own idea of its leader:
+		// it acknowledged a request of leader L less than one (minimum) election timeout
+		// ago, L still leads that term and is a voter of the follower's configuration -
+		// then a request without permission from anybody else neither gets the vote nor
+		// raises the follower's term, whatever made the follower forget its leader
+		if h, ok := c.lastHeard[dst.id]; ok && !rq.transfer && c.deliveryStep && !c.blackbox && dst.r != nil && c.net.deliveredTo[dst.host] == 1 &&
+			h.inc == dst.inc && h.ldr != rq.src && h.ldr != dst.id && time.Since(h.at) < c.opt.HeartbeatTimeout &&
+			dst.sh != nil && dst.sh.term == h.term && dst.sh.state == Follower && // (still in that term when this step began)
+			c.net.connAliveLocked(h.conn) { // (losing the connection the leader replicates over counts as losing the leader: the library's fast fail-over)
+			if ln := c.up(h.ldr); ln != nil && ln.r != nil && ln.r.state == Leader && ln.r.term == h.term && rq.term > h.term && dst.r.configs.Latest.isVoter(h.ldr) {
+				c.stats.class("stability-judged-by-clock")
+				if res == success || w.resp.getTerm() > h.term {
+					c.fail("stability", "disruptive-vote-request-honoured/heard-leader-recently", "follower %d acknowledged leader %d (term %d) %v ago and that leader still leads, yet it answered a vote request without transfer permission from node %d (term %d) with %s and term %d (its own idea of the leader: %d)", dst.id, h.ldr, h.term, time.Since(h.at), rq.src, rq.term, resultName(res), w.resp.getTerm(), dst.r.leader)
+				}
+			}
+		}
 		if res == success {
 			key := [2]uint64{dst.id, rq.term}
 			if prev, ok := l.votes[key]; ok && prev != rq.src {
@@ -180,6 +197,8 @@ func (c *cluster) onWireMsg(m *streamMon, w *wireMsg) {
 	case *appendReq:
 		res := w.resp.getResult()
 		if res == success {
+			// (C17) this incarnation has just heard from a leader of that term
+			c.lastHeard[dst.id] = heardRec{ldr: rq.src, term: rq.term, inc: dst.inc, at: time.Now(), conn: w.conn}
 			lastIdx := rq.prevLogIndex + uint64(len(w.reqMsg.entries))
 			if dst.sh != nil && lastIdx > dst.sh.acked {
 				dst.sh.acked = lastIdx
@@ -288,6 +307,14 @@ type timeoutNowRec struct {
 	lastTerm   uint64
 	cfg        Config
 	step       int
+}
+
+// heardRec: the last successful AppendEntries exchange of a follower (C17).
+type heardRec struct {
+	ldr, term uint64
+	inc       int
+	at        time.Time
+	conn      *simConn // the connection the leader replicates over
 }
 
 // tnConn names the connection the most recent timeout-now request was written on.
